@@ -457,6 +457,9 @@ var TimePrinter = Printer{
 	},
 	LeafVal: func(v reflect.Value) (string, bool) {
 		if v.Type() == tTime {
+			if !v.CanInterface() { // in an unexported field: never set
+				return "(VText " + coqfmt.Str("") + ")", true
+			}
 			tm := v.Interface().(time.Time)
 			if tm.IsZero() {
 				return "(VText " + coqfmt.Str("") + ")", true
@@ -484,6 +487,23 @@ func floatZ(f float64) string {
 
 // FloatTerm prints a float the way the models carry one: its value times 1024 as an integer.
 func FloatTerm(f float64) string { return "(VFloat " + floatZ(f) + ")" }
+
+// TimeTerm prints a time.Time as TimePrinter does.
+func TimeTerm(tm time.Time) string {
+	s, _ := TimePrinter.LeafVal(reflect.ValueOf(tm))
+	return s
+}
+
+// ValuePrinter: TimePrinter and ExactFloatPrinter together.
+var ValuePrinter = Printer{
+	LeafTy: func(t reflect.Type) (string, bool) { return TimePrinter.LeafTy(t) },
+	LeafVal: func(v reflect.Value) (string, bool) {
+		if s, ok := TimePrinter.LeafVal(v); ok {
+			return s, true
+		}
+		return ExactFloatPrinter.LeafVal(v)
+	},
+}
 
 // ExactFloatPrinter prints float and complex leaves exactly.
 var ExactFloatPrinter = Printer{
